@@ -28,6 +28,19 @@ def impl_oracle(c):
         return kind, "%s: %s" % (c["op"], o["crash"][:160])
     if c["op"] == "file":
         return J.file_oracle(c)
+    if c["op"] == "gort":
+        r = o.get("res")
+        if r in ("marshal-mismatch", "unmarshalerr", "json-rejects") or not o.get("ok"):
+            return "go-value-" + (r or "failed"), "%s (%s)" % (o.get("note"), c.get("src"))
+        if r == "ok" and not o.get("deep"):
+            loose = c.get("loose") or o.get("canon") is False
+            if not (loose and o.get("jsoneq") and J.same_value(o.get("want2"), o.get("got"))):
+                return "go-value-changed", ("Marshal printed %s; Unmarshal into the same Go type gives %s, "
+                                            "encoding/json's own round trip gives %s" % (
+                                                o.get("text"), o.get("got"), o.get("want2")))
+    if c["op"] == "runes":
+        if not o.get("ok"):
+            return "code-point", o.get("note") or "failed"
     if c["op"] == "print":
         if not o.get("ok"):
             return "marshal-failed", "Marshal failed: %s" % o.get("note")
@@ -53,6 +66,15 @@ def run(ck):
     cases = J.run_harness(ck, "c07", n)
     for c in cases:
         trivial = c["op"] == "print" and c["in"] in ("6e756c6c",)
+        if c["op"] == "gort":
+            o = c["obs"]
+            ck.coverage["go_values_" + (o.get("res") or "crash")] = ck.coverage.get("go_values_" + (o.get("res") or "crash"), 0) + 1
+            if o.get("ident"):
+                ck.coverage["go_values_identical"] = ck.coverage.get("go_values_identical", 0) + 1
+            if o.get("res") == "ok" and not o.get("deep"):
+                ck.coverage["go_values_json_equal_only"] = ck.coverage.get("go_values_json_equal_only", 0) + 1
+        if c["op"] == "runes":
+            ck.coverage["code_points_swept"] = ck.coverage.get("code_points_swept", 0) + (c["obs"].get("n") or 0)
         ck.count(c["stream"] + ":" + c["op"], key=(c["op"], c["in"]), trivial=trivial)
         bad = impl_oracle(c)
         if bad:
@@ -84,6 +106,16 @@ def run(ck):
              "from a pool covering every formatting regime and from random bit patterns, int64/uint64 extremes, "
              "json.Number, strings over control / quote / backslash / U+2028 / astral / U+FFFD code points, maps with "
              "identifier, keyword and arbitrary keys, structs, containers 0..3 deep. Each value goes through Marshal "
-             "then Unmarshal; the printed text also goes through the model's printer and decoder. Trivial = the value "
+             "then Unmarshal; the printed text also goes through the model's printer and decoder. Go values of concrete "
+             "types (struct tags incl. '-', omitempty, ',string', embedded and unexported fields; maps keyed by int, "
+             "TextMarshaler, number-like and keyword-like strings; nested pointers; json.Number; []byte (base64); "
+             "RawMessage, time.Time, a Marshaler writing unusual but valid JSON; NaN/Inf, channels, cycles, which "
+             "json.Marshal rejects; uint64 above 2^53 in interface{}) go through Marshal -> Unmarshal into a new value "
+             "of the same type and are compared (reflect.DeepEqual, else JSON equality for holders of JSON text) with "
+             "encoding/json's own round trip. Code points: both ends and neighbours of every range of every Unicode "
+             "category (sampled in the quick tier) through strconv.Quote and the printer against the model with the "
+             "unicode.IsPrint table; blocks of 1024 code points (all 1088 blocks in the thorough tier, a seeded tenth "
+             "plus everything below U+3000 otherwise) through strconv.Quote per code point and the real round trip as "
+             "value and as key. Trivial = the value "
              "nil; distinct = distinct (operation, json.Marshal of the value).",
         assumptions=["values are those json.Marshal can encode", "unicode.IsPrint(0x0A) = false"])
